@@ -254,24 +254,94 @@ def r5(cx):
                          "missing from the new shards after the cut-over" % b.sp(w), [b.sp(w)])
 
 
-@rule("C15", "R2", "the de-duplication key covers the whole row (every column), so rows that only share timestamp and metric name are all kept")
+DEDUP = "query::dedup::dedup_batches"
+
+
+def _dedup_pushes(b):
+    """(unfiltered pushes, filtered pushes) of batches into the result vector"""
+    plain, filt = [], []
+    for bi, t in b.calls():
+        if not t["callee"].endswith("Vec::<T, A>::push") or len(t["args"]) < 2:
+            continue
+        if "RecordBatch" not in b.locals[t["args"][1]["pl"]["l"]]["ty"] if t["args"][1].get("k") in ("move", "copy") else True:
+            continue
+        o = M.operand_origins(b, t["args"][1], at=(bi, M.T))
+        (filt if M.has_call(o, lambda c: c.endswith("filter_record_batch")) else plain).append(bi)
+    return plain, filt
+
+
+@rule("C15", "R2", "the de-duplication key covers the whole row (every column), so rows that only share timestamp and metric name are all kept: what is inserted into the seen-set derives "
+      "from ALL columns of the batch (RecordBatch::columns), not from columns picked by name")
 def r2(cx):
-    fk = "query::dedup::dedup_batches"
+    fk = DEDUP
     b = cx.body(fk)
     if b is None:
         cx.violation(fk, "anchor-missing", "body not found", [])
         return
-    named = []
+    ins = [bi for bi, t in b.calls() if re.search(r"HashSet::<T, S, A>::insert$|BTreeSet::<T, A>::insert$", t["callee"])]
+    if not cx.floor("seen-set inserts in dedup_batches", len(ins), 1, fk):
+        return
+    ADP = set(M.PURE_ADAPTERS) | {"std::iter::Iterator::enumerate", "std::iter::Iterator::next", "std::convert::AsRef::as_ref", "std::slice::<impl [T]>::to_vec"}
     for bi, t in b.calls():
-        if t["callee"].endswith("RecordBatch::column_by_name"):
-            cs = [x[1] for x in M.operand_origins(b, t["args"][1], at=(bi, M.T)) if x[0] == "const"]
-            named.append((cs[0].strip('"') if cs else "?", b.sp(bi)))
-    all_cols = M.find_calls(b, lambda c: c.endswith("RecordBatch::columns") or c.endswith("RecordBatch::num_columns"))
-    if named and not all_cols:
-        cx.violation(fk, "dedup-key-covers-row", "%s: the de-duplication key is built from the named columns %s only: two series of one metric at one timestamp (different labels or values) "
-                     "collapse into one row" % (named[0][1], [n[0] for n in named]), [n[1] for n in named])
-    else:
-        cx.passed(fk, "dedup-key-covers-row", [b.sp(a) for a in all_cols])
+        if re.search(r"arrow_row::(RowConverter::convert_columns|Rows::(iter|row)|Row::<'a>::owned|RowsIter.*::next)$", t["callee"]):
+            ADP.add(t["callee"])
+    for i in ins:
+        o = M.operand_origins(b, b.term(i)["args"][1], at=(i, M.T), adapters=ADP)
+        all_cols = M.has_call(o, lambda c: c.endswith("RecordBatch::columns"))
+        named = sorted({x[1][1] for x in o if x[0] == "call" and x[1][1].endswith("RecordBatch::column_by_name")})
+        picked = sorted({x[1][1].rsplit("::", 1)[1] for x in o if x[0] == "call" and re.search(r"::(value|column)$", x[1][1])})
+        if all_cols and not named:
+            cx.passed(fk, "dedup-key-covers-row", [b.sp(i)], "key derives from RecordBatch::columns")
+        else:
+            cx.violation(fk, "dedup-key-covers-row", "%s: the de-duplication key is built from %s, not from every column of the row: two series of one metric at one timestamp (different labels or "
+                         "values) collapse into one row" % (b.sp(i), "columns picked by name" if named or picked else "something other than the batch's columns"), [b.sp(i)])
+
+
+@rule("C15", "R6", "no silent pass-through: dedup_batches hands a batch on un-de-duplicated only when a key column is absent from the projection; a batch whose columns are present is always "
+      "keyed - in particular a column type the routine does not expect (Utf8View from the parquet reader, dictionary-encoded names) must not skip the de-duplication")
+def r6(cx):
+    fk = DEDUP
+    b = cx.body(fk)
+    if b is None:
+        cx.violation(fk, "anchor-missing", "body not found", [])
+        return
+    plain, filt = _dedup_pushes(b)
+    if not cx.floor("result pushes in dedup_batches", len(plain) + len(filt), 2, fk):
+        return
+    ins = [bi for bi, t in b.calls() if re.search(r"HashSet::<T, S, A>::insert$|BTreeSet::<T, A>::insert$", t["callee"])]
+    # edges on which a key column is known to be absent
+    absent = set()
+    for sw in M.bool_switches(b):
+        r = sw["root"]
+        if r and r[2] == "call" and r[3]["callee"].endswith("Option::<T>::is_none"):
+            o = M.operand_origins(b, r[3]["args"][0], at=(r[0], M.T))
+            if M.has_call(o, lambda c: c.endswith("RecordBatch::column_by_name")):
+                absent.add(sw["true_edge"])
+        if r and r[2] == "call" and r[3]["callee"].endswith("Option::<T>::is_some"):
+            o = M.operand_origins(b, r[3]["args"][0], at=(r[0], M.T))
+            if M.has_call(o, lambda c: c.endswith("RecordBatch::column_by_name")):
+                absent.add(sw["false_edge"])
+    for bi, blk in enumerate(b.blocks):
+        t = blk["term"]
+        if t["k"] == "switch" and t.get("enum") == "std::option::Option" and not blk.get("cleanup"):
+            dl = t["discr"].get("pl", {}).get("l")
+            src = [st["rv"]["pl"] for st in blk["stmts"] if st.get("lhs", {}).get("l") == dl and st["rv"].get("k") == "discr"]
+            if src:
+                o = M.provenance(b, src[0], at=(bi, len(blk["stmts"]) - 1), adapters=frozenset())
+                direct = [x for x in o if x[0] == "call"]
+                if direct and all(x[1][1].endswith("RecordBatch::column_by_name") and M.strip_unwraps(x[2]) == "" for x in direct):
+                    for nme, tg in zip(t["variants"], t["targets"]):
+                        if nme == "None":
+                            absent.add((bi, tg))
+                    if "None" not in (t["variants"] or []) and t.get("otherwise") is not None:
+                        absent.add((bi, t["otherwise"]))
+    for pb in plain:
+        keyed = any(b.reaches(i, pb) for i in ins) and all(b.dominated_by_blocks(pb, {x for x, tt in b.calls() if tt["callee"].endswith("convert_columns") or x in ins}) for _ in [0])
+        if keyed or (absent and b.dominated_by_edges(pb, absent)):
+            cx.passed(fk, "pass-through-only-when-key-column-absent", [b.sp(pb)], "after keying" if keyed else "key column absent")
+        else:
+            cx.violation(fk, "pass-through-only-when-key-column-absent", "%s: a batch whose key columns are present is handed on without de-duplication (an unexpected column type skips the keying): "
+                         "during a split a plain SELECT returns every double-written row twice" % b.sp(pb), [b.sp(pb)])
 
 
 @rule("C15", "R3", "de-duplication runs on stored rows, not on the statement's results (after aggregation it cannot undo double counting)")
